@@ -95,9 +95,7 @@ def check(ctx):
             mutating = True
             v = s.stmt.value if isinstance(s.stmt, ast.Assign) else None
             empty = isinstance(v, ast.List) and not v.elts
-            resets_clock = s.func is not None and any(
-                isinstance(t, ast.Attribute) and t.attr == '_now' and isinstance(t.ctx, ast.Store)
-                for t in ast.walk(s.func))
+            resets_clock = s.func is not None and s.func.name in dv.reset_functions(P, Env)[1]
             if not (empty and resets_clock):
                 ok, msg = False, 'the pending-event list is re-bound outside the reset or to a non-empty value'
         elif kind == 'subscript-store' and inside and s.func is not None and s.func.name in movers and not order_broken(s.func.name):
@@ -260,8 +258,8 @@ def check(ctx):
             if s.func.name in inv.covered(P, {'step'}):
                 ok = True        # value checked by C01.3 (helpers reachable only from step() count as step())
             elif isinstance(v, ast.Constant) and v.value == 0 and any(
-                    isinstance(t, ast.Attribute) and t.attr == '_events' and isinstance(t.ctx, ast.Store) for t in ast.walk(s.func)):
-                ok = True
+                    e_.cls is Env and e_.func is not None and e_.func.name in dv.reset_functions(P, Env)[1] for e_ in inv.attr_stores(P, '_events')):
+                ok = True        # the reset: clock and queue are emptied together (the queue possibly by a helper only the reset calls)
         o4.witness(s.ctx)
         if not ok:
             o4.fail(P, s.ctx, s.stmt, 'the simulation clock is written outside step()/reset', file=s.mod.path, line=s.line)
@@ -449,13 +447,16 @@ def check(ctx):
             o7.witness('time')
         o7.count()
         act = sched_action_name(tc)
-        flag = None
+        flag, raised = None, True
         if act and P.has_method(Env, act):
+            # the flag is whatever boolean field the action stores a constant into on every path (`_terminated = True`, or the inverted
+            # `_in_progress = False`); `raised` is the value that means "the end of the run was reached"
             ga = ctx.graph(Env, act, opaque=OPAQUE)
-            an = Analysis(P, ga, ['_terminated'])
-            res = an.run([State({'_terminated': 'F'})])
-            if res.exits() and all(s.fields['_terminated'] == 'T' for s in res.exits()):
-                flag = '_terminated'
+            sts = [n for n in ga.nodes.values() if n.kind == 'stmt' and isinstance(n.ast, ast.Assign) and len(n.ast.targets) == 1 and is_self_attr(n.ast.targets[0])
+                   and isinstance(n.ast.value, ast.Constant) and isinstance(n.ast.value.value, bool)]
+            names = {(n.ast.targets[0].attr, n.ast.value.value) for n in sts}
+            if len(names) == 1 and ga.exit not in ga.reach([ga.entry], avoid={n.id for n in sts}, follow=lambda l: l != 'exc'):
+                flag, raised = next(iter(names))
         if flag is None:
             o7.fail(P, 'Environment.run', tc, 'the action of the TERMINATE event does not set the termination flag', node=tn)
         else:
@@ -465,9 +466,9 @@ def check(ctx):
         if steps and not all(g.dominated_by(sn.id, {tn.id}) for sn in steps):
             o7.fail(P, 'Environment.run', tc, 'the loop can be entered without the TERMINATE event having been scheduled', node=tn)
         # flag lowered before the loop and before scheduling nothing re-raises it
-        lows = [n for n in g.nodes.values() if n.kind == 'stmt' and isinstance(n.ast, ast.Assign) and any(is_self_attr(t, '_terminated') for t in n.ast.targets)]
+        lows = [n for n in g.nodes.values() if n.kind == 'stmt' and isinstance(n.ast, ast.Assign) and any(is_self_attr(t, flag or '_terminated') for t in n.ast.targets)]
         o7.count()
-        good = [n for n in lows if isinstance(n.ast.value, ast.Constant) and n.ast.value.value is False]
+        good = [n for n in lows if isinstance(n.ast.value, ast.Constant) and n.ast.value.value is (not raised)]
         if not good or (steps and not all(g.dominated_by(sn.id, {n.id for n in good}) for sn in steps)):
             o7.fail(P, 'Environment.run', 'self._terminated = False', 'the termination flag is not lowered before the loop', file=Env.mod.path, line=fn.lineno)
         else:
@@ -484,10 +485,12 @@ def check(ctx):
         if sn.id not in g.reach([m for _, m in g.succ[sn.id]], follow=lambda l: l != 'exc'):
             o7.fail(P, 'Environment.run', None, 'step() is not called in a loop', node=sn)
         conds_ev = [n for n in g.nodes.values() if n.kind == 'cond' and dv_canon(n.ast, n.frame) in ('self._events', 'len(self._events)>0', 'len(self._events)!=0', 'len(self._events)', '0<len(self._events)')]
-        conds_t = [n for n in g.nodes.values() if n.kind == 'cond' and dv_canon(n.ast, n.frame) in ('self._terminated',)]
+        flag_, raised_ = (flag, raised) if len(term) == 1 and flag else ('_terminated', True)
+        go_on = 'F' if raised_ else 'T'          # the edge of the flag test on which the run goes on
+        conds_t = [n for n in g.nodes.values() if n.kind == 'cond' and dv_canon(n.ast, n.frame) in ('self.' + flag_,)]
         o7.count(2)
         ok_e = any(sn.id not in g.reach_edges([g.entry], cut_edges={(n.id, 'T')}) for n in conds_ev)
-        ok_t = any(sn.id not in g.reach_edges([g.entry], cut_edges={(n.id, 'F')}) for n in conds_t)
+        ok_t = any(sn.id not in g.reach_edges([g.entry], cut_edges={(n.id, go_on)}) for n in conds_t)
         if not ok_e:
             o7.fail(P, 'Environment.run', 'while self._events and not self._terminated', 'step() can be reached with an empty pending-event list', node=sn)
         else:
@@ -497,7 +500,7 @@ def check(ctx):
         else:
             o7.witness('loop-flag')
         # every iteration re-tests the flag: from step's successors, step is reachable again only through the conds
-        again = g.reach_edges([m for _, m in g.succ[sn.id]], cut_edges={(n.id, 'F') for n in conds_t})
+        again = g.reach_edges([m for _, m in g.succ[sn.id]], cut_edges={(n.id, go_on) for n in conds_t})
         if conds_t and sn.id in again:
             o7.fail(P, 'Environment.run', None, 'a second step() can run without re-testing the termination flag', node=sn)
         o7.sample({'terminate_site': f'{P.rel(Env.mod.path)}:{term[0][0].line}' if len(term) == 1 else None, 'step_site': sn.line,
